@@ -1,6 +1,7 @@
 import RzmqModel.Model.Session
 import RzmqModel.Props.C03
 import RzmqModel.Proofs.Session
+import RzmqModel.Proofs.Dealer
 /-!
 # C01 — while connected: every accepted message arrives exactly once, in order, intact
 
@@ -151,6 +152,42 @@ come out in acceptance order -/
 example :
     ((SendPath.run { cfg := { sndhwm := 100, count := 8, logical := 100, physical := 400 } } exEvs).egress.chunks.map
       (·.msgs)) = [3, 1, 3, 3] := by
+  decide
+
+-- DEALER: the pending queue in front of the pipe -----------------------------------------------------------------------------------------
+
+/-- the DEALER send path as the proofs need it (re-extracted from the sources on every run) -/
+theorem dealer_source_shape : currentDealerCfg = goodDealer := by decide
+
+/-- whatever the order of sends, of the processor's pops and hand-over attempts (successful or not) and of the session taking
+messages: what has been accepted is - in acceptance order - what is on the wire, then in the pipe, then in the processor's
+hand, then in the pending queue; so the wire is always a prefix of the acceptance log: nothing overtakes, nothing is lost or
+doubled on the way from send() to the session -/
+theorem dealer_wire_follows_acceptance (cap hwm : Nat) (evs : List DealerEv) :
+    (Dealer.run currentDealerCfg { cap := cap, hwm := hwm } evs).line
+        = (Dealer.run currentDealerCfg { cap := cap, hwm := hwm } evs).accepted
+    ∧ (Dealer.run currentDealerCfg { cap := cap, hwm := hwm } evs).delivered
+        <+: (Dealer.run currentDealerCfg { cap := cap, hwm := hwm } evs).accepted := by
+  rw [dealer_source_shape]
+  have h := Dealer.run_inv _ evs (Dealer.inv_init cap hwm)
+  exact ⟨h.line, Dealer.delivered_prefix _ h⟩
+
+/-- non-vacuity: a message waits in the queue, is popped, fails to be handed over, is re-queued, and still comes out second -/
+example : (Dealer.run currentDealerCfg { cap := 1, hwm := 4 }
+    [.send 1, .send 2, .send 3, .procPop, .procRoute, .sessionTake, .procPop, .procRoute, .sessionTake, .procPop, .procRoute,
+     .sessionTake]).delivered = [1, 2, 3] := by decide
+
+/-- the earlier shape (a send looked at the pipe first, whatever was pending): while the processor holds message 2 in its hand
+and the session has just made room, message 3 goes straight into the pipe and overtakes it -/
+theorem dealer_send_that_ignores_the_backlog_overtakes :
+    (Dealer.run { queuesBehindBacklog := false, requeuesAtFront := true } { cap := 1, hwm := 4 }
+      [.send 1, .send 2, .procPop, .sessionTake, .send 3, .sessionTake, .procRoute, .sessionTake]).delivered = [1, 3, 2] := by
+  decide
+
+/-- … and a processor that put a message it could not hand over at the BACK of the queue reorders too -/
+theorem dealer_requeue_at_the_back_reorders :
+    (Dealer.run { queuesBehindBacklog := true, requeuesAtFront := false } { cap := 1, hwm := 4 }
+      [.send 1, .send 2, .send 3, .procPop, .procRoute, .sessionTake, .procPop, .procRoute, .sessionTake]).delivered = [1, 3] := by
   decide
 
 end Rzmq.C01
